@@ -1439,10 +1439,13 @@ pub(crate) fn parse_protocol_message(bytes: &[u8], source: &str) -> Option<P2PEv
     let message: WireMessage = postcard::from_bytes(bytes).ok()?;
 
     // Validate timestamp to prevent replay attacks
+    #[cfg(not(feature = "verif-hooks"))]
     let now = std::time::SystemTime::now()
         .duration_since(std::time::UNIX_EPOCH)
         .map(|d| d.as_secs())
         .unwrap_or(0);
+    #[cfg(feature = "verif-hooks")]
+    let now = crate::verif_hooks::unix_secs();
 
     // Reject messages that are too old (potential replay)
     if message.timestamp < now.saturating_sub(MAX_MESSAGE_AGE_SECS) {
